@@ -39,6 +39,9 @@ def run_one(tape, opts):
     c.max_cleanups = 5
     flavour = tape.choice("config", ("extended", "testtools", "2.7", "stream"), "flavour")
     nruns = tape.weighted("config", [(4, 1), (2, 2), (1, 3)], "history-length")
+    if opts.get("tier") == "thorough":
+        c.max_ops += 2
+        c.max_cleanups += 2
     runner = lc.draw_runner(tape)
     if runner != "plain":
         c.skip_decorators = False     # what @skip does to setUp/tearDown under the Twisted runners is not in any property
